@@ -198,6 +198,8 @@ def run_case(case, res):
         adopt, touched = None, None
         if op == "set":
             desc = f"store {k!r}"
+            if aux % 9 == 5:
+                v = [None, 0, "", False, (), 0.0][step % 6]     # None and falsy objects are values like any other
             full_new = k not in m.val and n >= cap
             got = _guard(desc, n, lambda: c.__setitem__(k, v))
             if got[0] != "ok":
